@@ -173,6 +173,30 @@ def mapping_conflicts(out, tmp, only=None):
         s = read_3d_structure(f, 1)
     nts = [r for r in s.residues if r.is_nucleotide]
     idx = [(0, 19), (0, 18), (1, 18), (1, 19), (2, 17), (0, 17), (2, 19)]
+    # the same structure with its residues renumbered so that three consecutive residues share a number and differ by insertion code only
+    # (competing partners such as 16 / 16A / 16B): the conflict-resolution order must not depend on the interpreter
+    from mc import corpus, enumio
+    from mc.props.c05 import apply_abstract
+
+    t2 = apply_abstract([dict(a, model=1) for a in corpus.table("1A1T_1_B.cif") if a["altloc"] in (None, "A")], ("relabel", "icode-triples", None))
+    p2 = os.path.join(tmp, "1A1T-icodes.cif")
+    with open(p2, "w") as f:
+        f.write(enumio.emit_cif(t2, label_differs=True))
+    with open(p2) as f:
+        s2 = read_3d_structure(f, 1)
+    nts2 = [r for r in s2.residues if r.is_nucleotide]
+    for r in (2, 3):
+        for combo in itertools.combinations(idx, r):
+            key = "3d:mapping-icodes:" + "-".join("%d.%d" % c for c in combo)
+            if only and not key.startswith(only):
+                continue
+
+            def fn2(combo=combo):
+                bps = [BasePair(Residue(nts2[i].label, nts2[i].auth), Residue(nts2[j].label, nts2[j].auth), LeontisWesthof.cWW, None) for i, j in combo]
+                m = Mapping2D3D(s2, bps, [], False)
+                return [str(m.bpseq), m.dot_bracket, m.extended_dot_bracket, m.all_dot_brackets]
+
+            guarded(out, key + ":mapping", fn2)
     for r in (2, 3, 4):
         for combo in itertools.combinations(idx, r):
             key = "3d:mapping:" + "-".join("%d.%d" % c for c in combo)
